@@ -1000,7 +1000,6 @@ func ruleReplyErrorsChecked(w *core.World, r *core.Report) {
 	}
 }
 
-
 // phiStartsFromField: ph (or a phi it merges) has an operand that loads the
 // given field: a loop variable initialised from it.
 func phiStartsFromField(ph *ssa.Phi, typ, field string) bool {
